@@ -16,6 +16,7 @@ import (
 	"github.com/basecomplextech/spec/mpx"
 	"pgregory.net/rapid"
 
+	"verifharness/ev"
 	"verifharness/netfx"
 )
 
@@ -170,10 +171,10 @@ func libraryPanicText(log *netfx.RecLogger) string {
 func hangTimeout() time.Duration {
 	if s := os.Getenv("VERIF_HANG_S"); s != "" {
 		if n, err := strconv.Atoi(s); err == nil {
-			return time.Duration(n) * time.Second
+			return ev.Bound(time.Duration(n) * time.Second)
 		}
 	}
-	return 60 * time.Second
+	return ev.Bound(60 * time.Second)
 }
 
 // async30 returns a context that times out after 30 s.
